@@ -223,7 +223,7 @@ func (s *vfTypedSegment) Version() uint32 { return s.ver }
 // list of segment ids, types, versions and deleted sets; the trailer is the
 // CRC-32 of everything before it.
 //
-// vf:harness property=C12 cases=nseg:0..2;del:0..2;tlen:3,7;chunk:3,16 cases.thorough=nseg:0..3;del:0..3;tlen:0,3,7,12;chunk:1,3,11,16 diff=on
+// vf:harness property=C12 cases=nseg:0..2;del:0..2;tlen:1,3,7;chunk:3,16 cases.thorough=nseg:0..3;del:0..3;tlen:0,3,7,12;chunk:1,3,11,16 diff=on
 // vf:replace io.CopyN vfCopyN
 // vf:replace hash/crc32.Update vfChecksumUpdate
 // vf:replace (*github.com/RoaringBitmap/roaring.Bitmap).ReadFrom vfRoaringReadFrom
